@@ -95,6 +95,9 @@ def job_boundary(fmt):
 
             strip = z3.Function("str.strip", U, U)
             ctx.prove(f"{target}::post.a-line-ends-the-sequence-only-if-it-is-blank", strip(last[2].t) == ustr(""))
+            # ... and even a blank line is not the end of the input: complete frames may follow it (a blanked count field,
+            # an empty line between two frames); ending here drops them silently
+            ctx.prove(f"{target}::post.the-sequence-ends-only-at-the-end-of-the-input-(frames-after-a-blank-line-are-not-dropped)", False)
         for x in tr:
             if x[0] == "load_one-StopIteration":
                 ctx.prove(f"{target}::post.end-of-input-ends-the-sequence-only-at-a-frame-boundary", z3.Not(x[1]))
@@ -209,6 +212,21 @@ for fmt in ("xyz", "pdb", "mol2", "sdf"):
         if len(got) < complete: fails.append(((fmt, cut), "a complete frame before the cut was lost"))
         if inside and len(got) > complete and not w: fails.append(((fmt, cut, per), "partial frame yielded without warning or error: " + fmt))
         if inside and len(got) == complete and not w: fails.append(((fmt, cut, per), "file cut inside its last frame ends the sequence silently: " + fmt))
+    # an empty line between two complete frames / a blanked count field: the later frames must not vanish silently
+    dump_many(frames, fn)
+    lines = open(fn).read().splitlines(keepends=True)
+    for variant, l2 in (("empty line inserted between frames", lines[:per] + ["\n"] + lines[per:]), ("first line of the second frame blanked", lines[:per] + [" " * (len(lines[per]) - 1) + "\n"] + lines[per + 1:])):
+        cases += 1
+        with open(fn, "w") as fh: fh.write("".join(l2))
+        with warnings.catch_warnings(record=True) as w:
+            warnings.simplefilter("always")
+            try:
+                got = list(load_many(fn))
+            except LoadError:
+                continue
+            except Exception as exc:
+                fails.append(((fmt, variant), "escaping " + type(exc).__name__)); continue
+        if len(got) < 3 and not w: fails.append(((fmt, variant, len(got)), "frames after a blank line dropped silently: " + fmt))
     # corruption of one numeric field in the middle frame -> LoadError when it is reached
     dump_many(frames, fn)
     lines = open(fn).read().splitlines(keepends=True)
